@@ -108,11 +108,11 @@ CODE_STYLES = ['dense', 'dense', 'ascii', 'gaps', 'sparse']
 
 def gen_terms(r, k, style=None):
     style = style or r.choice(CODE_STYLES)
-    names = ['a', 'b', 'c', 'd', 'e'][:k]
+    names = ['a', 'b', 'c', 'd', 'e', 'f', 'g', 'h'][:k]
     if style == 'dense': codes = list(range(0, k)) if r.random() < 0.3 else list(range(97, 97 + k))
     elif style == 'ascii': codes = [ord(n) for n in names]
     elif style == 'gaps': codes = sorted(r.sample(range(1, 40), k))
-    else: codes = sorted(r.sample([3, 300, 20000, 70000, 1000000], k))
+    else: codes = sorted(r.sample([3, 300, 20000, 70000, 1000000, 5, 17, 4242], k))
     return list(zip(names, codes))
 
 
@@ -189,7 +189,9 @@ def gen_structured_grammar(r, with_transl=True):
     """grammar families whose analysis / forest has a particular structure that random rules
     rarely produce"""
     names = iter('pqrstuvwxyz' * 6)
-    kind = r.choice(['follow-chain', 'follow-chain', 'shared-alts', 'shared-alts', 'first-chain', 'nullable-prefix', 'nullable-prefix'])
+    kind = r.choice(['follow-chain', 'follow-chain', 'shared-alts', 'shared-alts', 'first-chain', 'nullable-prefix', 'nullable-prefix',
+                     'stmt-list', 'stmt-list', 'twice', 'twice'])
+    inputs_fn = None
     tn = ['a', 'b', 'c', 'd', 'e']
     terms = gen_terms(r, 5)
     rules = []
@@ -207,6 +209,44 @@ def gen_structured_grammar(r, with_transl=True):
         order = r.random()
         rules = body + links if order < 0.4 else links + body if order < 0.7 else body[:2] + links + body[2:]
         if rules[0][0] != 'S': rules = [x for x in rules if x[0] == 'S'] + [x for x in rules if x[0] != 'S']
+    elif kind == 'stmt-list':
+        # a list of statements of several kinds that share a middle constituent and differ in the
+        # first token and in the length of the tail: the same (set, token, lookahead) recurs with
+        # different origins of a few start situations (goto sets reused from a cache must be
+        # recomputed here), and the same core is reached with different distance vectors
+        terms = gen_terms(r, 7)
+        p, q, c1, c2, x, z, sep = [n for n, _ in terms]
+        rules = [('S', ['L']), ('L', ['E', sep, 'L']), ('L', []), ('E', [p, 'M', x]), ('E', [q, 'M', x, z]), ('M', [c1, c2])]
+        if r.random() < 0.4: rules.append(('E', [p, 'M', z]))
+        if r.random() < 0.3: rules.append(('M', [c1]))
+        if r.random() < 0.3: rules += [('M', ['N', c2, c2]), ('N', [c1])]
+        if r.random() < 0.3: rules[1] = ('L', ['L', 'E', sep])
+        if r.random() < 0.3: rules.append(('E', ['error']))
+        stm = [rh for l, rh in rules if l == 'E' and rh != ['error']]
+        mid = [rh for l, rh in rules if l == 'M']
+        def expand(rh, r):
+            out = []
+            for y in rh:
+                if y == 'M': out += expand(r.choice(mid), r)
+                elif y == 'N': out.append(c1)
+                else: out.append(y)
+            return out
+        def inputs_fn(r, tn):
+            toks = []
+            for _ in range(r.randint(3, 7)): toks += expand(r.choice(stm), r) + [sep]
+            return mutate(r, toks, tn) if r.random() < 0.3 else toks
+    elif kind == 'twice':
+        # the same constituent occurs twice in one sentence, predicted from different contexts:
+        # the second occurrence must get the completions of its own context
+        terms = gen_terms(r, 5)
+        a, b, c, d, e = [n for n, _ in terms]
+        tails = [[c], [c], [c, d]]
+        rules = [('S', ['P', 'Q']), ('P', ['X']), ('Q', ['X']), ('Q', ['Y']), ('X', ['B'] + tails[0]), ('Y', ['B'] + r.choice(tails)), ('B', [a, b])]
+        if r.random() < 0.4: rules.append(('P', ['Y']))
+        if r.random() < 0.4: rules[0] = ('S', ['P', 'Q', 'Q'])
+        if r.random() < 0.3: rules.append(('B', [a]))
+        if r.random() < 0.3: rules += [('Q', ['Z', e]), ('Z', ['B', c])]
+        if r.random() < 0.3: rules[1:1] = [('S', ['S', e, 'P'])]
     elif kind == 'nullable-prefix':
         # a rule with a nullable prefix before a nonterminal, reached twice in one set: as a
         # situation with an older origin and as a freshly predicted one (`A : N . C`)
@@ -235,15 +275,22 @@ def gen_structured_grammar(r, with_transl=True):
         else: an, cost, tr = None, 0, None
         out.append((l, an, cost, rh, tr))
     st = r.random() < 0.6
-    if py_check(terms, out, st) == 0: return Grammar(terms, out, st)
-    if py_check(terms, out, False) == 0: return Grammar(terms, out, False)
-    return None
+    g = None
+    if py_check(terms, out, st) == 0: g = Grammar(terms, out, st)
+    elif py_check(terms, out, False) == 0: g = Grammar(terms, out, False)
+    if g is not None and inputs_fn is not None: g.inputs_fn = inputs_fn
+    if g is not None and kind == 'twice':
+        def long_fn(r, tn, g=g):
+            t = Sampler(g, r).sentence(14) or []
+            return mutate(r, t, tn) if r.random() < 0.25 else t
+        g.inputs_fn = long_fn
+    return g
 
 
 def gen_grammar(r, nnt=None, nt_=None, err_prob=0.25, maxrules=3, strict=None, with_transl=True, tries=60):
     if nnt is None and nt_ is None and strict is None:
         x = r.random()
-        g = gen_structured_grammar(r, with_transl) if x < 0.08 else gen_classic_grammar(r, with_transl) if x < 0.20 else None
+        g = gen_structured_grammar(r, with_transl) if x < 0.12 else gen_classic_grammar(r, with_transl) if x < 0.24 else None
         if g is not None: return g
     """a random grammar accepted by the definition checks (if possible within `tries`)"""
     for _ in range(tries):
@@ -383,7 +430,10 @@ def gen_inputs(r, g, count, maxlen):
     if not tn: return [[]]
     sm = Sampler(g, r)
     res = []
+    fn = getattr(g, 'inputs_fn', None)
     for _ in range(count):
+        if fn is not None and r.random() < 0.8:
+            res.append(fn(r, tn)[:40]); continue
         x = r.random()
         s = sm.sentence(maxlen) if x < 0.75 else None
         if s is None:
@@ -557,11 +607,50 @@ def gen_chain_def(r):
     return Grammar(terms, rules, r.random() < 0.5)
 
 
+def gen_loop_def(r):
+    """definitions around derivation loops (A =>+ A): a ring of nonterminals C1 -> ... -> Cn -> C1
+    whose links stand among nullable (or, to break the loop, almost nullable) siblings at any
+    position of the right-hand side; nullable helpers that themselves occur alone in other
+    rules (flagged "may loop" by a decreasing fixpoint at first); escape alternatives; rule and
+    therefore symbol order shuffled"""
+    terms = [('a', 97), ('c', 99), ('d', 100)]
+    m = r.randint(1, 3); n = r.randint(1, 4)
+    E = ['E%d' % i for i in range(m)]; C = ['C%d' % i for i in range(n)]
+    rules = []
+    solid = r.randrange(m) if r.random() < 0.35 else -1        # this helper is not nullable after all
+    for i, e in enumerate(E):
+        if i == solid: rules.append((e, None, 0, ['a'], None))
+        else:
+            rules.append((e, None, 0, [], None))
+            if r.random() < 0.3: rules.append((e, None, 0, [r.choice(E), r.choice(E)], None))
+            if r.random() < 0.3: rules.append((e, None, 0, ['a'], None))
+    close = r.random() < 0.75
+    for i, c in enumerate(C):
+        nxt = C[(i + 1) % n]
+        pre = [r.choice(E) for _ in range(r.choice([0, 0, 1, 1, 2]))]
+        post = [r.choice(E) for _ in range(r.choice([0, 0, 1, 2]))]
+        if i + 1 < n or close: rules.append((c, None, 0, pre + [nxt] + post, None))
+        if r.random() < 0.8: rules.append((c, None, 0, ['c'], None))
+        if r.random() < 0.5: rules.append((c, None, 0, ['D', 'd'], None))
+        if r.random() < 0.2: rules.append((c, None, 0, [r.choice(E), r.choice(C), 'a'], None))
+    rules.append(('D', None, 0, [r.choice(E)], None))
+    if r.random() < 0.5: rules.append(('D', None, 0, [r.choice(C), 'a'], None))
+    if r.random() < 0.4: rules.append(('D', None, 0, [r.choice(E), r.choice(E)], None))
+    r.shuffle(rules)
+    start = ('S', None, 0, [r.choice(C)] + (['D'] if r.random() < 0.5 else []), None)
+    if r.random() < 0.6: rules = [start] + rules
+    else:
+        k = r.randrange(len(rules)); c0 = rules[k]
+        rules = [c0] + rules[:k] + rules[k + 1:] + [(c0[0], None, 0, ['S', 'a'], None), start]
+    return Grammar(terms, rules, r.random() < 0.5)
+
+
 def gen_def_cases(seed, count):
     r = random.Random(seed)
     cases = []
     for i in range(count):
-        g = gen_chain_def(r) if r.random() < 0.25 else gen_def_grammar(r)
+        z = r.random()
+        g = gen_chain_def(r) if z < 0.25 else gen_loop_def(r) if z < 0.45 else gen_def_grammar(r)
         c = ['case C10-%d-%d def' % (seed, i)] + g.text(0)
         c += ['op 1 create 0', 'op 2 def 0 0', 'op 3 err 0', 'op 4 set 0 rec 0', 'op 5 parse 0 user user 1', 'op 6 err 0', 'op 7 free 0', 'end']
         cases.append(c)
